@@ -16,7 +16,7 @@ from c05 import BLK_T, defbytes, neight, rnd_f64, case_label
 PROP = "C06"
 ENG_NAME = {"i": "interp-shim", "0": "gen-O0", "1": "gen-O1", "2": "gen-O2", "3": "gen-O3", "L": "lazy-gen(first call)", "l": "lazy-gen(second call)"}
 TIERS = {"quick": {"engines": "i 2 L", "bodies": 1, "stride": 1, "res_stride": 3},
-         "thorough": {"engines": "i 0 1 2 3 L", "bodies": 2, "stride": 1, "res_stride": 1}}
+         "thorough": {"engines": "i 0 1 2 3 M", "bodies": 2, "stride": 1, "res_stride": 1}}
 M32 = 281470681808895          # 0x0000FFFF0000FFFF
 NLIVE_I, NLIVE_D = 20, 8
 ASZ = [1, 8, 24, 100, 1000, 4104, 16, 40]
@@ -267,7 +267,8 @@ def write_input(path, jobs, engines):
             head[264:272] = struct.pack("<Q", len(stk))
             f.write("C %s\nT %d\n%s" % (j["jid"], text.count("\n"), text))
             f.write("F f%s\nI %s\nS %s\nD %s\nP %d %d %d %d\nE %s\nX\n" % (j["jid"], bytes(head).hex(), b"".join(stk).hex(),
-                                                                    b"".join(j["seeds"]).hex(), npw, nvw, NLIVE_I + NLIVE_D + 2, 6, engines))
+                                                                    b"".join(j["seeds"]).hex(), npw, nvw, NLIVE_I + NLIVE_D + 2, 6,
+                                                                    j.get("engs") or engines))
 
 
 def build_harness():
@@ -374,6 +375,8 @@ def validate(evs, workdir, nchunks=6):
     triples = [evs[k:k + 3] for k in range(0, len(evs), 3)]
     if not triples:
         return {}, 0
+    if len(triples) > 60000:
+        nchunks = max(nchunks, min(8, vlib.NCPU // 2))
     per = (len(triples) + nchunks - 1) // nchunks
     jobs = []
     for k in range(0, len(triples), per):
@@ -426,7 +429,7 @@ def execute(jobs, engines, ck, workdir, mutate=None, exe=None):
     t1 = time.time()
     engs = []
     for e in engines.split():
-        engs += ["L", "l"] if e == "L" else [e]
+        engs += ["L", "l"] if e == "M" else [e]
     evs, index, nexec = [], {}, 0
     hard = []
     for j in jobs:
@@ -496,9 +499,9 @@ def job_from_rec(rec):
 # findings/proposed/ have been applied (a series, each step adding one repair).  The key is the repair that first
 # makes the execution pass.  Everything the repairs do not cure keeps its raw key and alarms.  When a repair does
 # not apply to the tree under test (any more), it is skipped and nothing is attributed to it.
-FIX_SERIES = [("callee:ld_stack_unaligned", "C05-ld-stack-align.diff"),
+FIX_SERIES = [("callee:va_block_arg_sse", "C06-va-block-arg-sse.diff"),
+              ("callee:ld_stack_unaligned", "C05-ld-stack-align.diff"),
               ("callee:gen_va_start", "C06-gen-va-start.diff"),          # (edits the loop the previous repair touches)
-              ("callee:va_block_arg_sse", "C06-va-block-arg-sse.diff"),
               ("callee:gvn_va_block_arg", "C06-gvn-va-block-arg.diff")]
 
 
@@ -509,12 +512,13 @@ def patched_harnesses():
     pdir = os.path.join(vlib.VERIF, "findings", "proposed")
     patches = [os.path.join(pdir, p) for _, p in FIX_SERIES]
     th = vlib.tree_hash(files + [p for p in patches if os.path.exists(p)])
-    dirs, prev = [], None
+    dirs, prev, applied = [], None, []
     for k, (key, pf) in enumerate(FIX_SERIES):
         path = os.path.join(pdir, pf)
         if not os.path.exists(path):
             continue
-        d = os.path.join(vlib.OUT, "build", "c06fix-%s-%d" % (th, k + 1))
+        applied = applied + [pf]
+        d = os.path.join(vlib.OUT, "build", "c06fix-%s-%s" % (th, vlib.tree_hash(applied)[:8]))   # (hash of the patch *names* applied so far)
         if not os.path.exists(os.path.join(d, ".ok")):
             shutil.rmtree(d, ignore_errors=True)
             os.makedirs(d)
@@ -525,6 +529,7 @@ def patched_harnesses():
                 # e.g. the repair has been committed to the tree under test already: nothing is attributed to it
                 vlib.log("  c06: proposed repair %s does not apply to the tree under test; skipped" % pf)
                 shutil.rmtree(d, ignore_errors=True)
+                applied = applied[:-1]
                 continue
             open(os.path.join(d, ".ok"), "w").write("ok")
         dirs.append((key, d))
@@ -549,30 +554,62 @@ def patched_harnesses():
 
 
 def attribute(fails, index, hard, engines, workdir):
-    """{(jid, eng): finding key} for failing executions cured by the proposed repairs"""
+    """{(jid, eng): finding key} for failing executions cured by the proposed repairs: every failing execution is
+    re-run on every tree of the repair series, all runs are validated by one TraceABI pass, the key is the first
+    repair of the series from which on the execution passes"""
     bad = set(fails) | set((j["jid"], eng) for j, eng, _, _ in hard)
     for j, eng, _, _ in hard:
         index[(j["jid"], eng)] = j
     if not bad:
         return {}
-    cured = {}
-    for key, exe in patched_harnesses():
-        if not bad:
-            break
-        byjid = {}
-        for be in sorted(bad):
-            byjid.setdefault(be[0], index[be])
-        jobs = list(byjid.values())
-        vlib.log("  c06: attribution step %s: %d failing executions of %d functions to re-run" % (key, len(bad), len(jobs)))
-        d = os.path.join(workdir, "fix-" + key.split(":")[1])
+    series = patched_harnesses()
+    if not series:
+        return {}
+    byjid = {}
+    for be in sorted(bad):
+        jb = byjid.setdefault(be[0], dict(index[be], engs=""))
+        e = "M" if be[1] == "l" else be[1]
+        cur = jb["engs"].split()
+        if e == "L" and "M" in cur:
+            continue
+        if e == "M":
+            cur = [x for x in cur if x != "L"]
+        if e not in cur:
+            cur.append(e)
+        jb["engs"] = " ".join(cur)
+    jobs = list(byjid.values())
+    vlib.log("  c06: attribution: %d failing executions of %d functions re-run on %d repaired trees" % (len(bad), len(jobs), len(series)))
+    evs, ran, still = [], [set() for _ in series], [set() for _ in series]
+    for k, (key, exe) in enumerate(series):
+        d = os.path.join(workdir, "fix%d" % k)
         os.makedirs(d, exist_ok=True)
-        nexec, nst, nev, f2, ix2, hard2 = execute(jobs, engines, None, d, exe=exe)
-        still = set(f2) | set((j["jid"], eng) for j, eng, _, _ in hard2)
-        ran = set(ix2) | still
-        for be in sorted(bad):
-            if be in ran and be not in still:
-                cured[be] = key
-        bad -= set(cured)
+        res = chunked_run(exe, jobs, engines, d)
+        for jb in jobs:
+            for e in jb["engs"].split():
+                for eng in (["L", "l"] if e == "M" else [e]):
+                    r = res.get((jb["jid"], eng))
+                    if r is None:
+                        continue
+                    ran[k].add((jb["jid"], eng))
+                    if r[0] != "R":
+                        still[k].add((jb["jid"], eng))
+                        continue
+                    e3 = events(jb, eng, r)
+                    e3[0]["id"] = "%s@%d" % (jb["jid"], k)
+                    evs += e3
+    f2, _ = validate(evs, workdir)
+    for (tid, eng) in f2:
+        jid, k = tid.rsplit("@", 1)
+        still[int(k)].add((jid, eng))
+    cured = {}
+    for be in sorted(bad):
+        # first k such that the execution passes on tree k and on every later tree of the series
+        ok = [be in ran[k] and be not in still[k] for k in range(len(series))]
+        k = len(series)
+        while k > 0 and ok[k - 1]:
+            k -= 1
+        if k < len(series):
+            cured[be] = series[k][0]
     return cured
 
 
@@ -598,7 +635,7 @@ def run(tier, mutate=None):
     ck.setc("executions", nexec)
     ck.setc("trace_events_validated", nev)
     ck.setc("traces_validated_against_impl", nexec)
-    ck.setc("interfaces", [ENG_NAME[e] for e in T["engines"].split()] + (["lazy-gen(second call)"] if "L" in T["engines"] else []))
+    ck.setc("interfaces", [ENG_NAME["L" if e == "M" else e] for e in T["engines"].split()] + (["lazy-gen(second call)"] if "M" in T["engines"] else []))
     from collections import Counter
     ck.setc("bodies", dict(Counter(j["body"] for j in jobs)))
     for j in jobs[len(jobs) // 3::max(1, len(jobs) // 3)][:3]:
@@ -623,7 +660,7 @@ def replay(path):
     j = job_from_rec(rec)
     eng = rec["engine"]
     workdir = vlib.scratch_dir("c06r-")
-    nexec, nst, nev, fails, index, hard = execute([j], "L" if eng in "Ll" else eng, None, workdir)
+    nexec, nst, nev, fails, index, hard = execute([j], "M" if eng in "Ll" else eng, None, workdir)
     bad = [(k, t) for _, e, k, t in hard]
     for (jid, e), fl in fails.items():
         if e == eng:
